@@ -210,7 +210,8 @@ def run(R):
             other = {"flat": rng.random() < 0.5, "gzip": rng.random() < 0.5}
             reopen = lambda: accessor.get_accessor_for_url(d, other)   # noqa: E731
         pio = precomputed_io.get_IO_for_new_dataset(info, acc)
-        arrays = []          # token -> array
+        arrays = []          # token -> array (expected read-back)
+        given_arrays = {}    # token -> array actually passed to write_chunk
         last = {}            # (key, coords) -> token
         ops, wire = [], []
         for _ in range(rng.randrange(1, 13)):
@@ -229,7 +230,18 @@ def run(R):
                     hi = np.iinfo(dt).max
                     pool = [0, 1, hi, hi - 1, rng.randrange(hi), rng.randrange(hi), 2 ** 31 % (hi + 1)]
                     arr = np.array([rng.choice(pool) for _ in range(int(np.prod(shape)))], dtype=dt).reshape(shape)
-                arrays.append(arr)
+                # the array handed to write_chunk may be big-endian or of a narrower type that casts
+                # safely; what must come back is its value in the dataset's data type
+                want = arr
+                given = arr
+                r = rng.random()
+                if r < 0.2 and arr.dtype.itemsize > 1:
+                    given = arr.astype(arr.dtype.newbyteorder(">"))
+                elif r < 0.3 and enc == "raw" and dt in ("uint16", "uint32", "uint64", "float32"):
+                    small = np.array([rng.randrange(256) for _ in range(arr.size)], dtype="uint8").reshape(arr.shape)
+                    given, want = small, small.astype(dt)
+                arrays.append(want)
+                given_arrays[len(arrays) - 1] = given
                 ops.append(("w", len(arrays) - 1, sc["key"], c, ckind))
                 wire.append([Atom("w"), len(arrays) - 1, sc["key"].encode(), list(c)])
             else:
@@ -244,7 +256,7 @@ def run(R):
                                 [s for s in scales if s["key"] == key][0]["chunk_sizes"], c)
             if kind_o == "w":
                 before = _listing(acc, d)
-                impl = outcome_of(lambda: pio.write_chunk(arrays[tok], key, c))
+                impl = outcome_of(lambda: pio.write_chunk(given_arrays[tok], key, c))
                 if impl[0] == "ok":
                     impl = ["ok", "stored"]
                     last[(key, c)] = tok
